@@ -54,6 +54,31 @@ def norm(path):
     if path is None:
         return None
     path = path.strip()
+    # an impl that lives in another module than its type and trait is printed `module::<impl Trait for Type>::item`:
+    # the same item as `<Type as Trait>::item` (where the impl block stands does not matter)
+    k = path.find('<impl ')
+    if k >= 0 and (k == 0 or path[:k].endswith('::')):
+        depth = 0
+        for i in range(k, len(path)):
+            c = path[i]
+            if c == '<':
+                depth += 1
+            elif c == '>' and not (i > 0 and path[i - 1] == '-'):
+                depth -= 1
+                if depth == 0:
+                    inner, rest = path[k + 6:i], path[i + 1:]
+                    d2, j = 0, -1
+                    for m in range(len(inner)):
+                        if inner[m] == '<':
+                            d2 += 1
+                        elif inner[m] == '>' and not (m > 0 and inner[m - 1] == '-'):
+                            d2 -= 1
+                        elif d2 == 0 and inner.startswith(' for ', m):
+                            j = m
+                            break
+                    if j >= 0:
+                        return norm('<' + inner[j + 5:] + ' as ' + inner[:j] + '>' + rest)
+                    break    # inherent impls (`core::num::<impl u64>::saturating_sub`) keep their module-qualified form
     if path.startswith('<'):
         depth = 0
         for i, c in enumerate(path):
